@@ -51,7 +51,7 @@ class PoolWorld(World):
             "Daemon.handleRequest, protocol, socketutil.receive_data/send_data, marshal serializer"]
     STUB = ["threading.Event/Lock (simulated, baton scheduler)", "time (virtual clock)",
             "sockets + selector (in-memory)", "Worker.__hash__ (index based)", "jobs (scripted durations)"]
-    PROBES = ["thread_start_failed", "wall_clock_stepped_back_during_close", "refused", "worker_retired", "worker_created", "close_with_running_jobs", "preempted",
+    PROBES = ["thread_start_failed", "commtimeout_none", "pool_resized_live", "wall_clock_stepped_back_during_close", "refused", "worker_retired", "worker_created", "close_with_running_jobs", "preempted",
               "server_layer", "refused_on_wire", "worker_reused", "close_races_submission", "submit_after_close_refused", "stalled", "silent_client", "job_raised", "closed_during_housekeeper_round"]
     RULE = ("plan = (layer, THREADPOOL_SIZE, THREADPOOL_SIZE_MIN, per job: duration and gap before the next "
             "submission, optional close time, pre-emption probabilities); distinct = distinct interleaving digest "
@@ -112,6 +112,12 @@ class PoolWorld(World):
             t_close = sum(j["gap"] for j in jobs) + close["after"]
             plan["clock_jumps"] = [[round(t_close + rng.choice([0.05, 0.15, 0.25, 0.45]), 4), -3600.0]]
             plan["p_stall"] = 0.0
+        if layer == "server" and not commt and rng.random() < 0.3:
+            plan["commtimeout_none"] = True
+        if layer == "pool" and "clock_jumps" not in plan and rng.random() < 0.12 and len(jobs) >= 3:
+            # the application changes THREADPOOL_SIZE while the pool is in use (the pool reads the configuration live): from job k
+            # on the bound is higher, and a submission below the new bound must not be refused
+            plan["resize"] = {"at": rng.randint(1, len(jobs) - 1), "size": size + rng.randint(1, 2)}
         if layer == "server" and rng.random() < 0.15:
             # a listener of the unix-domain kind: the address of an accepted connection is '' (no host, no port)
             plan["net"] = {"unix_addr": True}
@@ -130,6 +136,9 @@ class PoolWorld(World):
         config.THREADPOOL_SIZE_MIN = plan["min"]
         config.POLLTIMEOUT = 2.0
         config.COMMTIMEOUT = plan.get("commtimeout", 0.0) if plan["layer"] == "server" else 0.0
+        if plan.get("commtimeout_none"):
+            config.COMMTIMEOUT = None       # "no timeout" spelled the other legal way (Pyro's own tests set it like this)
+            ctx.probe("commtimeout_none")
         config.SERVERTYPE = "thread"
         sched = ctx.sched
         workers = []
@@ -260,6 +269,9 @@ class PoolWorld(World):
 
         during = plan["close"].get("during") if plan["close"] else None
         for i, j in enumerate(plan["jobs"]):
+            if plan.get("resize") and i == plan["resize"]["at"]:
+                config.THREADPOOL_SIZE = plan["size"] = int(plan["resize"]["size"])
+                ctx.probe("pool_resized_live")
             in_service_before = st["in_service"]
             sub_now[i] = sched.now
             try:
